@@ -1011,14 +1011,17 @@ def _detail_diff(h_ops, images, memo, sig):
 # ------------------------------------------------------------------------------ driver
 
 TIERS = {
-    "quick": {"histories": 1300, "chains": 48, "produce": (2, 2), "wall_cap": 110, "shard": 10},
-    "thorough": {"histories": 40000, "chains": 1600, "produce": (10, 12), "wall_cap": 3000, "shard": 20},
+    # other_hosts: (histories, chains, workers) for each of the other host interpreters, run concurrently
+    "quick": {"histories": 1000, "chains": 40, "produce": (2, 2), "wall_cap": 110, "shard": 10,
+              "other_hosts": (90, 3, 3)},
+    "thorough": {"histories": 30000, "chains": 1200, "produce": (10, 12), "wall_cap": 3000, "shard": 20,
+                 "other_hosts": (4000, 160, 3)},
 }
 
 
 def _replay_path(master, tag):
     os.makedirs(core.REPLAY_DIR, exist_ok=True)
-    return os.path.join(core.REPLAY_DIR, "C18-%d-%s.json" % (master, tag))
+    return os.path.join(core.REPLAY_DIR, "C18-%d-py%d%d-%s.json" % (master, sys.version_info[0], sys.version_info[1], tag))
 
 
 def matches_finding(sig, finding):
@@ -1055,6 +1058,44 @@ def fresh_interpreter_check(sample):
     return n, bad
 
 
+def run_other_hosts(master, tier, n_hist, n_chains, workers_each):
+    """the same simulation on every other host interpreter, concurrently; each returns a summary JSON"""
+    import subprocess
+    import threading
+
+    me = "%d.%d.%d" % sys.version_info[:3]
+    outs = []
+    errs = []
+
+    def one(tag, exe):
+        outp = os.path.join(W["rundir"], "sub-%s.json" % tag)
+        try:
+            p = subprocess.run([exe, "-B", "-s", os.path.join(core.VERIF_DIR, "sim", "main.py"), "C18", "--tier", tier,
+                                "--seed", str(master), "--runs", str(n_hist), "--chains", str(n_chains),
+                                "--workers", str(workers_each), "--sub", outp, "--no-selftest"],
+                               env=core.child_env(), stdout=subprocess.PIPE, stderr=subprocess.PIPE, timeout=3600)
+            if p.returncode not in (0, 1):
+                errs.append("C18 on host %s failed (%d): %s" % (tag, p.returncode, p.stderr.decode(errors="replace")[-500:]))
+                return
+            with open(outp) as f:
+                outs.append(json.load(f))
+        except Exception as e:
+            errs.append("C18 on host %s: %r" % (tag, e))
+
+    ths = []
+    for tag, exe in core.host_pythons():
+        if tag != me:
+            t = threading.Thread(target=one, args=(tag, exe))
+            t.start()
+            ths.append(t)
+    for t in ths:
+        t.join()
+    if errs:
+        raise core.HarnessError("; ".join(errs[:2]))
+    outs.sort(key=lambda o: o["host"])
+    return outs
+
+
 def main(opts):
     t0 = time.time()
     tier = opts["tier"]
@@ -1062,9 +1103,14 @@ def main(opts):
     cfg = dict(TIERS[tier])
     if opts.get("runs"):
         cfg["histories"] = int(opts["runs"])
+        cfg["other_hosts"] = None
+    if opts.get("chains") is not None:
+        cfg["chains"] = int(opts["chains"])
     workers = opts.get("workers") or core.default_workers()
-    core.log("[C18] tier=%s seed=%d host=%s workers=%d" % (tier, master, sys.version.split()[0], workers))
-    produced = corpus.produce_corpus(master, cfg["produce"][0], cfg["produce"][1])
+    sub = opts.get("sub")
+    core.log("[C18] tier=%s seed=%d host=%s workers=%d%s" % (tier, master, sys.version.split()[0], workers,
+                                                             " (sub)" if sub else ""))
+    produced = corpus.load_produced() if sub else corpus.produce_corpus(master, cfg["produce"][0], cfg["produce"][1])
     prepare(master, tier, produced)
     core.log("[C18] corpus: %d files (%d loadable, %d small enough for listings), %d versions, prepared in %.1fs" % (
         len(W["bases"]), len(W["loadable"]), len(W["small"]), len(W["versions"]), time.time() - t0))
@@ -1074,7 +1120,7 @@ def main(opts):
     sh = cfg["shard"]
     W["chain_from"] = n
     # chains first (they are the long poles), 3 per shard so that a worker's reference memo is reused
-    nch = cfg.get("chains", 0) if not opts.get("runs") else max(0, int(opts["runs"]) // 40)
+    nch = cfg.get("chains", 0) if (not opts.get("runs") or opts.get("chains") is not None) else max(0, int(opts["runs"]) // 40)
     shards = [(lo, min(n + nch, lo + 3)) for lo in range(n, n + nch, 3)]
     shards += [(lo, min(n, lo + sh)) for lo in range(0, n, sh)]
     aggs = []
@@ -1086,6 +1132,10 @@ def main(opts):
         aggs.extend(core.run_sharded(run_shard, shards[w0:w0 + wave], workers))
     tot = merge(aggs)
     t_runs = time.time() - t0
+    others = []
+    if cfg.get("other_hosts") and not sub and not opts.get("no_hosts"):
+        oh = cfg["other_hosts"]
+        others = run_other_hosts(master, tier, oh[0], oh[1], oh[2])
     # determinism self-test: the first shard again, in this process layout and split differently
     det_ok = True
     if not opts.get("no_selftest"):
@@ -1139,14 +1189,29 @@ def main(opts):
         replays.append(path)
         lines.append("VIOLATION property=%s replay=%s" % (PROP, path))
         core.log("  class %s: %s (%d instance(s))" % (k, x["v"], len(group)))
+    for o in others:
+        n_unknown += o["n_unknown"]
+        lines.extend(o["lines"])
+        replays.extend(o["replays"])
+        for kk, vv in o["known"].items():
+            known_hits[kk] = known_hits.get(kk, 0) + vv
     for f in findings:
-        if f.get("property") == PROP and f.get("status") == "known" and known_hits.get(f["id"]):
+        if f.get("property") == PROP and f.get("status") == "known" and known_hits.get(f["id"]) and not sub:
             lines.append("KNOWN-FINDING: property=%s %s: %s [%d instance(s) in this run]" % (
                 PROP, f["id"], f["description"], known_hits[f["id"]]))
     wall = time.time() - t0
+    if sub:
+        with open(sub, "w") as f:
+            json.dump({"host": "%d.%d.%d" % sys.version_info[:3], "n_unknown": n_unknown, "lines": lines,
+                       "replays": replays, "known": known_hits,
+                       "summary": {"histories": tot["histories"], "ops": tot["ops"], "compared": tot["compared"],
+                                   "fault_ops_fired": tot["fault_ops_fired"], "distinct": len(tot["distinct"]),
+                                   "chain_pairs": tot["chain_pairs"], "wall": round(wall, 1)}}, f)
+        return core.EXIT_VIOLATION if n_unknown else core.EXIT_OK
     coverage = {
-        "evaluations": tot["histories"],
-        "distinct_nontrivial": len(tot["distinct"]),
+        "evaluations": tot["histories"] + sum(o["summary"]["histories"] for o in others),
+        "distinct_nontrivial": len(tot["distinct"]) + sum(o["summary"]["distinct"] for o in others),
+        "histories_on_other_hosts": dict((o["host"], o["summary"]) for o in others),
         "rule": "one evaluation = one seeded history of public operations executed in a fork of a pristine "
                 "`import xdis` process over a simulated disk of 2-4 slots, every compared operation checked against "
                 "the same call made first in its own fresh fork, tables checked against the fresh-process snapshot "
@@ -1205,6 +1270,14 @@ def main(opts):
 def replay(path):
     with open(path) as f:
         r = json.load(f)
+    me = "%d.%d.%d" % sys.version_info[:3]
+    if r.get("host") and r["host"] != me and os.environ.get("XDIS_VERIF_REPLAY_SUB") != "1":
+        import subprocess
+
+        for tag, exe in core.host_pythons():
+            if tag == r["host"]:
+                return subprocess.run([exe, "-B", "-s", os.path.join(core.VERIF_DIR, "sim", "main.py"), "C18",
+                                       "--replay", path], env=core.child_env({"XDIS_VERIF_REPLAY_SUB": "1"})).returncode
     produced = []
     prepare(r.get("master_seed", 0), "quick", produced)
     h = History()
